@@ -5,6 +5,7 @@ the real reader on a two-record tie probe; TLC checks the machine for that KEY a
 sequence (<= MaxN records over 3 time values, duplicates, nulls) x every window together with Emit; every such
 instance is rendered as a real Linux utmp file (C layout, distinctive field values per record), stored plain or
 compressed, and run through the real binary at a drawn block size; stdout is parsed back into records."""
+import json
 import os
 import random
 import re
@@ -171,7 +172,7 @@ def run(pid, tier, seed):
 
         def do(ic):
             i, (case, recs, emit) = ic
-            return case.run(os.path.join(sc, "e2e", "c%d" % i))
+            return case.run(os.path.join(sc, "e2e", "c%d" % i), trace=True)
 
         t0 = time.time()
         with ThreadPoolExecutor(max_workers=10) as ex:
@@ -209,10 +210,45 @@ def run(pid, tier, seed):
             elif len(samples) < 3 and ties:
                 samples.append({"times": recs, "A": case.note["A"], "B": case.note["B"], "emit": list(emit),
                                 "container": case.note["container"], "argv": case.argv})
+        # I->S: the map operations of every run (FsBegin / FsInsert / FsAt hook events) against TraceOrdered.tla: built in
+        # file order, walked by least (time, offset) key, every call naming the next least entry
+        trecs = []
+        walks = 0
+        for (case, recs, emit), rr in zip(cases, runs):
+            if rr.crashed:
+                continue
+            evs = [e for e in rr.trace if e.get("ev") in ("FsBegin", "FsInsert", "FsAt")]
+            if not evs:
+                continue
+            ranks = {k_: j + 1 for j, k_ in enumerate(sorted({(e["ts"], e["tu"]) for e in evs if e["ev"] == "FsInsert"}))}
+            for e in evs:
+                trecs.append({"ev": e["ev"], "fo": e.get("fo", 0), "r": ranks.get((e.get("ts"), e.get("tu")), 0), "next": e.get("next", 0),
+                              "left": e.get("left", 0), "size": e.get("size", 0)})
+            walks += 1
+        walks_ok = 0
+        if not trecs:
+            rep.note_drift("no FixedStruct map events recorded (hooks missing?)")
+        else:
+            tdir = os.path.join(sc, "tv")
+            os.makedirs(tdir, exist_ok=True)
+            tp = os.path.join(tdir, "fs.ndjson")
+            with open(tp, "w") as f:
+                for x in trecs:
+                    f.write(json.dumps(x) + "\n")
+            tcfg = write_cfg(os.path.join(tdir, "tord.cfg"), {"MaxN": 1, "Times": {1}, "KEY": "time_fo", "JBEFORE": "inclusive"}, spec="TSpec",
+                             constraint="Progress", postcondition="Accepted")
+            tr = tlc("TraceOrdered", tcfg, tdir, workers=1, timeout=900, env={"TRACE": tp}, deque=True, java_opts="-Xmx3g")
+            if tr.ok:
+                walks_ok = walks
+            else:
+                import re as _re
+                m = _re.search(r'"UNMATCHED",\s*(\d+)', tr.output)
+                k = int(m.group(1)) if m else 0
+                rep.note_drift("FixedStruct map trace not explained by Ordered.tla's machine at record %s: %s" % (k, trecs[k - 1] if 0 < k <= len(trecs) else tr.output[-300:]))
         if predicted and "ties-lost" not in reproduced and "ties-lost" not in rep.known_hits:
             rep.note_drift("Ordered.tla with measured KEY=%s violates %s but no run reproduced a loss" % (key, predicted))
         rep.coverage = {"states": r.distinct + r2.distinct, "transitions": r.generated + r2.generated,
-                        "traces_validated_against_impl": 0, "evaluations": len(runs), "distinct_nontrivial": nontriv,
+                        "traces_validated_against_impl": walks_ok, "evaluations": len(runs), "distinct_nontrivial": nontriv,
                         "rule": "every initial state of Ordered.tla (record-time sequence with nulls, window) is one instance, "
                                 "rendered as a Linux x86_64 utmp file; non-trivial = equal times or null records present",
                         "samples": samples or [{"note": "no tie sample passed"}], "key_measured": key,
